@@ -11,7 +11,10 @@ import Mathlib.Data.Matrix.Basic
 namespace PP.SparseMM
 
 /-- well-formed compressed structure with `s` compressed rows: pointers monotone, plain indices strictly
-increasing inside every compressed row (what `torch.sparse_bsr_tensor` / `sparse_bsc_tensor` validate). -/
+increasing inside every compressed row.  This is torch's DOCUMENTED invariant of compressed tensors; the constructors
+`torch.sparse_bsr_tensor` / `sparse_bsc_tensor` do NOT check it unless `check_invariants=True` (tensors produced by
+`to_sparse_bsr/bsc` satisfy it).  On an operand that violates it the merge join is silently wrong — outside this
+hypothesis, hence outside the theorems (see notes/C10.md). -/
 structure WF (ptr idx : Nat → Nat) (s : Nat) : Prop where
   mono : ∀ i, i < s → ptr i ≤ ptr (i+1)
   strict : ∀ i, i < s → ∀ a b, ptr i ≤ a → a < b → b < ptr (i+1) → idx a < idx b
